@@ -91,6 +91,7 @@ Definition has_sep (s : str) : bool := mem_N QMARK s || mem_N PIPE s.
 Definition vstat (sel : str) : node :=
   if has_sep sel then stat root (fst (virtual_split sel)) else stat root sel.
 
+Definition exists_node (n : node) := match nkind n with KAbsent => false | _ => true end.
 Definition is_file (n : node) := match nkind n with KFile => true | _ => false end.
 Definition is_dir (n : node) := match nkind n with KDir => true | _ => false end.
 
@@ -125,8 +126,8 @@ Definition can_handle (h : hid) (sel : str) : bool :=
   | HGophermap => (is_dir st && isfile root (sel ++ lit "/gophermap")) || (is_file st && endswith sel (lit ".gophermap"))
   | HMaildirFolder => (match ar with [] => true | _ => false end) && is_dir vs
                       && isdir root (re ++ lit "/new") && isdir root (re ++ lit "/cur")
-  | HMaildirMessage => msg_args_ok MAILDIRFLAG ar
-  | HMboxMessage => msg_args_ok MBOXFLAG ar
+  | HMaildirMessage => exists_node vs && msg_args_ok MAILDIRFLAG ar
+  | HMboxMessage => exists_node vs && msg_args_ok MBOXFLAG ar
   | HMboxFolder => (match ar with [] => true | _ => false end) && is_file vs && nmbox vs
   | HUMNDir | HDir => is_dir st
   | HHtmlTitle => is_file st && mime_html sel
